@@ -224,9 +224,10 @@ def run_property(prop, tier="quick", seed=0, out=sys.stdout):
         "wall_s": round(time.time() - t0, 2),
         "violations": len(new_viol),
     }
-    os.makedirs(os.path.join(VERIF, "evidence"), exist_ok=True)
-    with open(os.path.join(VERIF, "evidence", "%s.json" % prop), "w") as fh:
-        json.dump(ev, fh, indent=1)
+    if not os.environ.get("VERIF_NO_EVIDENCE"):
+        os.makedirs(os.path.join(VERIF, "evidence"), exist_ok=True)
+        with open(os.path.join(VERIF, "evidence", "%s.json" % prop), "w") as fh:
+            json.dump(ev, fh, indent=1)
     out.write("%s tier=%s configs=%s rules=%d obligations=%d discharged=%d violated_keys=%d (known %d) broken=%d wall=%.1fs\n" % (
         prop, tier, ",".join(configs), len(rules), len(obs), discharged, len(viol), len(known_hit), len(broken), time.time() - t0))
     return rc
